@@ -246,6 +246,48 @@ Check (C15_huffman_order : forall (Hleaf Hbranch : bytes -> bytes) (ws : list (N
     Permutation (map fst wl) ws /\
     map (fun l => (l_script l, length (l_branch l))) (n_leaves n) = map (fun x => (snd (fst x), snd x)) wl /\
     forall x y, In x wl -> In y wl -> (fst (fst y) < fst (fst x))%N -> (snd x <= snd y)%nat).
+Check (C15_cb_verifies : forall (Hleaf Hbranch Htweak : bytes -> bytes) (xonly_valid scalar_ok : bytes -> bool)
+  (tweak : bytes -> bytes -> option (bytes * bool)) (tweak_check : bytes -> bytes -> bool -> bytes -> bool),
+  (forall P Q par t, tweak_check P Q par t = true <-> tweak P t = Some (Q, par)) ->
+  (forall m, length (Hleaf m) = 32%nat) -> (forall m, length (Hbranch m) = 32%nat) ->
+  forall (t : tree) (P : bytes) (i : spendinfo) (l : leafinfo),
+  wf_tree t -> (height t <= MAXD)%nat -> length P = 32%nat -> xonly_valid P = true ->
+  build Hleaf Hbranch Htweak scalar_ok tweak (dfs t 0) P = Val i -> In l (leaf_paths Hleaf Hbranch t) ->
+  let c := {| cb_ver := l_ver l; cb_parity := si_parity i; cb_key := P; cb_branch := l_branch l |} in
+  verify Hleaf Hbranch Htweak scalar_ok tweak_check c (si_outkey i) (l_script l) = Val true /\
+  length (cb_serialize c) = (33 + 32 * length (l_branch l))%nat /\ cb_size c = N.of_nat (length (cb_serialize c)) /\
+  (length (l_branch l) <= MAXD)%nat /\
+  cb_from_slice xonly_valid (cb_serialize c) = Ok c /\
+  (exists c' l', control_block i (l_script l, l_ver l) = Some c' /\ In l' (leaf_paths Hleaf Hbranch t) /\
+                 l_script l' = l_script l /\ l_ver l' = l_ver l /\
+                 c' = {| cb_ver := l_ver l; cb_parity := si_parity i; cb_key := P; cb_branch := l_branch l' |} /\
+                 verify Hleaf Hbranch Htweak scalar_ok tweak_check c' (si_outkey i) (l_script l) = Val true)).
+Check (C15_output_key : forall (Hleaf Hbranch Htweak : bytes -> bytes) (scalar_ok : bytes -> bool)
+  (tweak : bytes -> bytes -> option (bytes * bool)) (t : tree) (P : bytes) (i : spendinfo),
+  (height t <= MAXD)%nat -> build Hleaf Hbranch Htweak scalar_ok tweak (dfs t 0) P = Val i ->
+  si_internal i = P /\ si_root i = Some (root Hleaf Hbranch t) /\
+  scalar_ok (Htweak (P ++ root Hleaf Hbranch t)) = true /\
+  tweak P (Htweak (P ++ root Hleaf Hbranch t)) = Some (si_outkey i, si_parity i) /\
+  (forall k v, map_has (si_map i) k v <-> exists l, In l (leaf_paths Hleaf Hbranch t) /\ k = (l_script l, l_ver l) /\ v = l_branch l)).
+Check (C15_huffman_shape : forall (Hleaf Hbranch Htweak : bytes -> bytes) (scalar_ok : bytes -> bool)
+  (tweak : bytes -> bytes -> option (bytes * bool)) (P : bytes) (ws : list (N * bytes)),
+  match with_huffman_tree Hleaf Hbranch Htweak scalar_ok tweak P ws with
+  | Val i => ws <> [] /\
+      exists t, no_hidden t /\ (height t <= MAXD)%nat /\ build Hleaf Hbranch Htweak scalar_ok tweak (dfs t 0) P = Val i /\
+                Permutation (map (fun l => (l_script l, l_ver l)) (leaf_paths Hleaf Hbranch t)) (map (fun ws => (snd ws, default_ver)) ws) /\
+                Forall (fun l => (length (l_branch l) < length ws)%nat) (leaf_paths Hleaf Hbranch t)
+  | Fail e => (ws = [] /\ e = IncompleteTree) \/ (ws <> [] /\ e = InvalidMerkleTreeDepth (N.of_nat MAXD))
+  | Panic s => s = ScalarRange \/ s = TweakFailed
+  end).
+Check (C15_keypair : forall (Htweak : bytes -> bytes) (scalar_ok : bytes -> bool) (pt : Type) (padd : pt -> pt -> pt) (pneg : pt -> pt)
+  (mulG : Z -> pt) (xonly_of : pt -> option (bytes * bool)) (lift_x : bytes -> option pt),
+  (forall a b, mulG (a + b)%Z = padd (mulG a) (mulG b)) -> (forall a, mulG (- a)%Z = pneg (mulG a)) ->
+  (forall s x par, xonly_of (mulG s) = Some (x, par) -> lift_x x = Some (if par then pneg (mulG s) else mulG s)) ->
+  forall (sk : Z) (root : option bytes) (sk' : Z),
+  keypair_tap_tweak Htweak scalar_ok pt mulG xonly_of sk root = Val sk' ->
+  exists P par0 Q par, kp_xonly pt mulG xonly_of sk = Some (P, par0) /\
+    tap_tweak Htweak scalar_ok (xonly_tweak pt padd mulG xonly_of lift_x) P root = Val (Q, par) /\
+    kp_xonly pt mulG xonly_of sk' = Some (Q, par)).
 Print Assumptions C15_builder_sound.
 Print Assumptions C15_output_key.
 Print Assumptions C15_cb_verifies.
